@@ -20,23 +20,37 @@ def isSp (c : Char) : Bool :=
 def isDig (c : Char) : Bool := '0' ≤ c && c ≤ '9'
 def dval (ds : List Char) : Nat := ds.foldl (fun a c => a * 10 + (c.toNat - 48)) 0
 
+/-- `num/den / 2^(eo-1074)` as a ratio of naturals (`eo` = binary exponent + 1074 ≥ 0). -/
+def scaled (num den eo : Nat) : Nat × Nat :=
+  if 1074 ≤ eo then (num, den <<< (eo - 1074)) else (num <<< (1074 - eo), den)
+
+def quot (num den eo : Nat) : Nat := (scaled num den eo).1 / (scaled num den eo).2
+
+/-- the exponent `eo` with `2^52 ≤ quot < 2^53`, clamped below at 0 (subnormal range):
+`⌊log2 (num/den)⌋ ∈ {l-1, l}` for `l = log2 num - log2 den`. -/
+def pickExp (num den : Nat) : Nat :=
+  let l : Int := (num.log2 : Int) - (den.log2 : Int)
+  let eo0 : Nat := (l - 52 + 1074 - 1).toNat                -- candidate (may be one too small)
+  if quot num den eo0 < 2 ^ 53 then eo0 else eo0 + 1
+
+/-- `a / b` rounded to the nearest natural, ties to even. -/
+def roundHalfEven (a b : Nat) : Nat :=
+  if 2 * (a % b) > b ∨ (2 * (a % b) = b ∧ (a / b) % 2 = 1) then a / b + 1 else a / b
+
+/-- significand (`< 2^53`) and exponent (`eo`) of the nearest binary64, before encoding. -/
+def roundCore (num den : Nat) : Nat × Nat :=
+  let eo := pickExp num den
+  let q1 := roundHalfEven (scaled num den eo).1 (scaled num den eo).2
+  if q1 = 2 ^ 53 then (2 ^ 52, eo + 1) else (q1, eo)
+
 /-- nearest binary64 to `num / den` (`num, den > 0`), ties to even, and whether `strtod` sets
 `ERANGE` for underflow (tiny and inexact); `none` on overflow. -/
 def roundRatio (num den : Nat) : Option (Nat × Bool) :=
-  -- e with 2^52 ≤ num / (den * 2^e) < 2^53, clamped below at -1074 (written with an offset:
-  -- `eo = e + 1074 ≥ 0`)
-  let l : Int := (num.log2 : Int) - (den.log2 : Int)       -- ⌊log2 (num/den)⌋ ∈ {l-1, l}
-  let scaled (eo : Nat) : Nat × Nat :=                       -- num/den / 2^(eo-1074) as a ratio
-    if 1074 ≤ eo then (num, den <<< (eo - 1074)) else (num <<< (1074 - eo), den)
-  let quot (eo : Nat) : Nat := (scaled eo).1 / (scaled eo).2
-  let eo0 : Nat := (l - 52 + 1074 - 1).toNat                -- candidate (may be one too small)
-  let eo1 : Nat := if quot eo0 < 2 ^ 53 then eo0 else eo0 + 1
-  let eo : Nat := eo1
-  let p := scaled eo
+  let eo := pickExp num den
+  let p := scaled num den eo
   let q := p.1 / p.2
   let r := p.1 % p.2
-  let q1 := if 2 * r > p.2 ∨ (2 * r = p.2 ∧ q % 2 = 1) then q + 1 else q
-  let (q2, eo2) := if q1 = 2 ^ 53 then (2 ^ 52, eo + 1) else (q1, eo)
+  let (q2, eo2) := roundCore num den
   -- tininess is detected after rounding (x86-64 glibc): the value rounded to 53 bits with an
   -- unbounded exponent is below 2^-1022, i.e. value < 2^-1022 - 2^-1076
   let tiny : Bool := eo = 0 ∧ q < 2 ^ 52 ∧ num <<< 1076 < (2 ^ 54 - 1) * den
@@ -116,6 +130,10 @@ def strtod (s : List Char) : Res :=
   | .noConv => .noConv
   | .unsupported => .unsupported
 
+/-- how far the 53-bit significand of a normal binary64 with biased exponent `e` has to be
+shifted to become a binary32 significand (24 bits, or fewer in the binary32 subnormal range). -/
+def f32Shift (e : Nat) : Nat := if e + 29 ≥ 1075 - 149 then 29 else 1075 - 149 - e
+
 /-- `(float) d` for a finite binary64 pattern: round to nearest even, overflow to ±inf. -/
 def toFloat32 (b : Nat) : Nat :=
   let sign := if 2 ^ 63 ≤ b then 2 ^ 31 else 0
@@ -125,10 +143,8 @@ def toFloat32 (b : Nat) : Nat :=
   else
     let q := 2 ^ 52 + m                      -- value = q * 2^(e - 1075)
     -- float: value = q' * 2^E' with E' = e - 1075 + shift ≥ -149
-    let shift := if e + 29 ≥ 1075 - 149 then 29 else 1075 - 149 - e
-    let q0 := q / 2 ^ shift
-    let r := q % 2 ^ shift
-    let q1 := if 2 * r > 2 ^ shift ∨ (2 * r = 2 ^ shift ∧ q0 % 2 = 1) then q0 + 1 else q0
+    let shift := f32Shift e
+    let q1 := roundHalfEven q (2 ^ shift)
     let (q2, sh2) := if q1 = 2 ^ 24 then (2 ^ 23, shift + 1) else (q1, shift)
     if q2 < 2 ^ 23 then sign + q2
     else
